@@ -25,6 +25,7 @@ package main
 
 import (
 	"crypto/sha256"
+	"encoding/binary"
 	"encoding/hex"
 	"errors"
 	"fmt"
@@ -48,6 +49,12 @@ const (
 	// verdicts do not depend on the load of the machine running the check. The oracle brackets
 	// the factor in [0.1,1] all the same.
 	cpuThreshold = 999
+	// the second threshold family: the CPU reading is "far above the threshold". The package computes
+	// factor = (1000-usage)/(1000-threshold) clamped to [0.1,1]; usage is in [0,1000], so with the
+	// threshold at -9000 the quotient is at most 0.1 whatever the machine does: the factor is pinned
+	// to its minimum 0.1 (shedding starts at 10% of the capacity estimate). The CPU verdict itself
+	// still comes from the injected checker, never from the threshold.
+	cpuThresholdDeep = -9000
 )
 
 type histCfg struct {
@@ -55,12 +62,24 @@ type histCfg struct {
 	Window   time.Duration
 	Buckets  int
 	ViaGroup bool // construct through ShedderGroup.GetShedder
+	Deep     bool // threshold family "CPU far above the threshold": overload factor pinned to 0.1
+}
+
+func (c histCfg) threshold() int64 {
+	if c.Deep {
+		return cpuThresholdDeep
+	}
+	return cpuThreshold
 }
 
 var histCfgs = []histCfg{
 	{Name: "w5s-b50", Window: 5 * time.Second, Buckets: 50},
 	{Name: "w1s-b10-group", Window: time.Second, Buckets: 10, ViaGroup: true},
 	{Name: "w100ms-b2", Window: 100 * time.Millisecond, Buckets: 2},
+	// overload factor 0.1; 1 s buckets: the capacity estimate of a window without a pass is 1, so
+	// histories in which requests only ever fail are shedding-relevant with a handful in flight
+	{Name: "w10s-b10-deep", Window: 10 * time.Second, Buckets: 10, Deep: true},
+	{Name: "w1s-b10-deep", Window: time.Second, Buckets: 10, Deep: true},
 }
 
 func cfgByName(n string) (histCfg, bool) {
@@ -76,10 +95,11 @@ func (c histCfg) interval() time.Duration { return c.Window / time.Duration(c.Bu
 
 // OpDef is one operation of a history.
 type OpDef struct {
-	K    string `json:"k"`              // allow | pass | fail | burst | passall | failall | jump | macro
+	K    string `json:"k"`              // allow | pass | fail | burst | passall | failall | churn | jump | macro
 	Over bool   `json:"over,omitempty"` // allow/burst: the CPU is at/above the threshold
 	New  bool   `json:"new,omitempty"`  // pass/fail: newest unfinished promise (else the oldest)
-	N    int    `json:"n,omitempty"`    // burst: number of Allow calls
+	N    int    `json:"n,omitempty"`    // burst: number of Allow calls; churn: number of rounds
+	P    bool   `json:"p,omitempty"`    // churn: resolve with Pass (else Fail)
 	D    int64  `json:"d,omitempty"`    // jump: nanoseconds
 	M    string `json:"m,omitempty"`    // macro name
 }
@@ -110,6 +130,12 @@ func (o OpDef) String() string {
 		return "PassAll"
 	case "failall":
 		return "FailAll"
+	case "churn":
+		how := "Fail"
+		if o.P {
+			how = "Pass"
+		}
+		return fmt.Sprintf("churn×%d(%s oldest; Allow(cpu-under))", o.N, how)
 	case "jump":
 		return "+" + time.Duration(o.D).String()
 	case "macro":
@@ -218,10 +244,15 @@ type histResult struct {
 
 var cpuOverNow bool // answer of the injected systemOverloadChecker (history engine)
 
+var histWantInfo bool // render histResult.info (samples)
+
+var trailBuf = make([]OpDef, 0, 1024)
+
 type histRun struct {
 	c        histCfg
 	disabled bool
 	verbose  bool
+	wantInfo bool // render the readable state dump
 	s        load.Shedder
 	m        *refModel
 	promises []load.Promise
@@ -237,17 +268,29 @@ type histRun struct {
 
 func (h *histRun) trailString() string {
 	var out []string
-	for i := 0; i < len(h.trail); {
+	t := h.trail
+	for i := 0; i < len(t); {
 		j := i
-		for j < len(h.trail) && h.trail[j] == h.trail[i] {
+		for j < len(t) && t[j] == t[i] {
 			j++
 		}
 		if j-i > 1 {
-			out = append(out, fmt.Sprintf("%v ×%d", h.trail[i], j-i))
-		} else {
-			out = append(out, h.trail[i].String())
+			out = append(out, fmt.Sprintf("%v ×%d", t[i], j-i))
+			i = j
+			continue
 		}
-		i = j
+		// a repeated pair (churn): (x; y) ×k
+		k := 1
+		for i+1 < len(t) && i+2*k+1 < len(t) && t[i+2*k] == t[i] && t[i+2*k+1] == t[i+1] {
+			k++
+		}
+		if k > 1 {
+			out = append(out, fmt.Sprintf("(%v; %v) ×%d", t[i], t[i+1], k))
+			i += 2 * k
+			continue
+		}
+		out = append(out, t[i].String())
+		i++
 	}
 	return strings.Join(out, "; ")
 }
@@ -373,8 +416,15 @@ func (h *histRun) resolve(i int, pass bool, o OpDef) bool {
 	}
 	p := h.promises[i]
 	start := m.out[i]
-	h.promises = append(h.promises[:i:i], h.promises[i+1:]...)
-	m.out = append(m.out[:i:i], m.out[i+1:]...)
+	switch last := len(h.promises) - 1; i { // oldest or newest: no copying
+	case 0:
+		h.promises, m.out = h.promises[1:], m.out[1:]
+	case last:
+		h.promises, m.out = h.promises[:last], m.out[:last]
+	default:
+		h.promises = append(h.promises[:i:i], h.promises[i+1:]...)
+		m.out = append(m.out[:i:i], m.out[i+1:]...)
+	}
 	if pass {
 		p.Pass()
 		cur := m.now / m.interval
@@ -439,6 +489,16 @@ func (h *histRun) apply(o OpDef) bool {
 				return false
 			}
 		}
+	case "churn": // N rounds: the oldest unfinished request ends (Pass or Fail), a new one arrives (CPU fine)
+		for i := 0; i < o.N && len(h.promises) > 0; i++ {
+			kind := "fail"
+			if o.P {
+				kind = "pass"
+			}
+			if !h.resolve(0, o.P, OpDef{K: kind}) || !h.allow(false) {
+				return false
+			}
+		}
 	case "jump":
 		h.jump(o.D)
 	case "macro":
@@ -457,8 +517,12 @@ func runHistory(c histCfg, disabled bool, ops []OpDef, verbose bool) histResult 
 	vsched.SetNow(baseClock)
 	cpuOverNow = false
 	load.VerifSetOverloadChecker(func(int64) bool { return cpuOverNow })
-	h := &histRun{c: c, disabled: disabled, verbose: verbose, m: newRef(c)}
-	opts := []load.ShedderOption{load.WithWindow(c.Window), load.WithBuckets(c.Buckets), load.WithCpuThreshold(cpuThreshold)}
+	h := &histRun{c: c, disabled: disabled, verbose: verbose, wantInfo: histWantInfo, m: newRef(c)}
+	h.trail = trailBuf[:0] // one history at a time per process: the step trail reuses one buffer
+	defer func() { trailBuf = h.trail[:0] }()
+	h.promises = make([]load.Promise, 0, 256)
+	h.m.out = make([]int64, 0, 256)
+	opts := []load.ShedderOption{load.WithWindow(c.Window), load.WithBuckets(c.Buckets), load.WithCpuThreshold(c.threshold())}
 	if c.ViaGroup {
 		g := load.NewShedderGroup(opts...)
 		h.s = g.GetShedder("svc")
@@ -493,13 +557,102 @@ func capAge(a int64) int64 {
 	return a
 }
 
-func dumpWindow(sb *strings.Builder, tag string, w collection.VerifWindowDump, now time.Duration) {
+// stateKey returns (hash, readable dump). The hash is taken over a binary encoding of exactly
+// the fields of the readable dump; the dump itself is only rendered on request (samples, replay).
+func (h *histRun) stateKey() (string, string) {
+	b := keyBuf[:0]
+	put := func(v int64) { b = binary.AppendVarint(b, v) }
+	putWin := func(w collection.VerifWindowDump, now time.Duration) {
+		put(winSince(w, now))
+		if w.IgnoreCurrent {
+			put(1)
+		} else {
+			put(0)
+		}
+		for i := 1; i <= w.Size; i++ {
+			pos := (w.Offset + i) % w.Size
+			if w.Sums[pos] != 0 || w.Counts[pos] != 0 {
+				put(int64(w.Size - i))
+				put(w.Sums[pos])
+				put(w.Counts[pos])
+			}
+		}
+		put(-1)
+	}
+	m := h.m
+	st := load.VerifDump(h.s)
+	if h.disabled {
+		b = append(b, st.Type...)
+	} else {
+		now := timex.Now()
+		oa := int64(-1)
+		if st.OverloadTime != 0 {
+			oa = capAge(int64(now - st.OverloadTime))
+		}
+		put(st.Flying)
+		b = binary.LittleEndian.AppendUint64(b, math.Float64bits(st.AvgFlying))
+		if st.DroppedRecently {
+			put(1)
+		} else {
+			put(0)
+		}
+		put(oa)
+		putWin(st.Pass, now)
+		putWin(st.Rt, now)
+	}
+	put(m.now % m.interval)
+	put(int64(len(m.out)))
+	for _, s := range m.out {
+		put(m.now - s)
+	}
+	la := int64(-1)
+	if m.lastOver >= 0 {
+		la = capAge(m.now - m.lastOver)
+	}
+	put(la)
+	if m.everShed {
+		put(1)
+	} else {
+		put(0)
+	}
+	b = binary.LittleEndian.AppendUint64(b, math.Float64bits(m.ema))
+	cur := m.now / m.interval
+	ages := ageBuf[:0]
+	for idx := range m.buckets {
+		ages = append(ages, cur-idx)
+	}
+	sort.Slice(ages, func(i, j int) bool { return ages[i] < ages[j] })
+	for _, a := range ages {
+		bk := m.buckets[cur-a]
+		put(a)
+		put(bk.n)
+		put(bk.latNs)
+	}
+	ageBuf, keyBuf = ages, b
+	sum := sha256.Sum256(b)
+	info := ""
+	if h.verbose || h.wantInfo {
+		info = h.describe()
+	}
+	return hex.EncodeToString(sum[:12]), info
+}
+
+var (
+	keyBuf []byte
+	ageBuf []int64
+)
+
+func winSince(w collection.VerifWindowDump, now time.Duration) int64 {
 	since := int64(now - w.LastTime)
 	full := int64(w.Size) * int64(w.Interval)
 	if since >= full && w.Interval > 0 { // span()==size whatever the excess; only the phase survives
 		since = full + since%int64(w.Interval)
 	}
-	fmt.Fprintf(sb, "%s{since=%d ign=%v", tag, since, w.IgnoreCurrent)
+	return since
+}
+
+func dumpWindow(sb *strings.Builder, tag string, w collection.VerifWindowDump, now time.Duration) {
+	fmt.Fprintf(sb, "%s{since=%d ign=%v", tag, winSince(w, now), w.IgnoreCurrent)
 	for i := 1; i <= w.Size; i++ {
 		pos := (w.Offset + i) % w.Size
 		if w.Sums[pos] != 0 || w.Counts[pos] != 0 {
@@ -509,8 +662,8 @@ func dumpWindow(sb *strings.Builder, tag string, w collection.VerifWindowDump, n
 	sb.WriteString("}")
 }
 
-// stateKey returns (hash, readable dump).
-func (h *histRun) stateKey() (string, string) {
+// describe renders the state the key is computed from.
+func (h *histRun) describe() string {
 	var sb strings.Builder
 	m := h.m
 	if h.disabled {
@@ -551,7 +704,5 @@ func (h *histRun) stateKey() (string, string) {
 		fmt.Fprintf(&sb, "%d:%d/%d ", a, b.n, b.latNs)
 	}
 	sb.WriteString("}")
-	s := sb.String()
-	sum := sha256.Sum256([]byte(s))
-	return hex.EncodeToString(sum[:12]), s
+	return sb.String()
 }
